@@ -416,12 +416,17 @@ def replay(payload):
         ref = sp.digamma if which == "digamma" else (lambda z: sp.polygamma(1, z))
         xs = [float(m.get("x", 1.0))] + list(np.logspace(-9, 9, 400)) + \
             list(np.linspace(1e-5, 9.5, 2000)) + [1e-5, 1.0001e-5, 1e-4, 1.0001e-4, 5.0, 8.5]
-        tol = 5e-10 if which == "digamma" else 5e-8
         for x in xs:
             if not x > 0:
                 continue
             g, r = f(float(x)), float(ref(x))
-            if not abs(g - r) <= tol * max(abs(r), 1e-3):
+            # accuracy the real code has: the two-term small-x forms are good to ~2e-10 / ~2e-8
+            # relative, the recurrence + series to ~1e-14 (digamma) / ~4e-11 (trigamma)
+            if which == "digamma":
+                tol = 5e-10 * abs(r) if x <= 1.0001e-5 else 2e-13 * max(1.0, abs(r))
+            else:
+                tol = 5e-8 * abs(r) if x <= 1.0001e-4 else 2e-10 * abs(r)
+            if not abs(g - r) <= tol:
                 bad.append((which, x, g, r))
     elif case.startswith("betaln"):
         for p, q in [(float(m.get("p", 1.5)), float(m.get("q", 2.5))), (0.3, 7.0), (1e-3, 1e3),
